@@ -853,6 +853,9 @@ fn bpe_text(ctx: &mut Ctx, letters: &[&str], max: usize) -> String {
             s.push(' ');
         } else if r < 94 {
             s.push(gen::pick(&mut ctx.rng, gen::WS));
+        } else if r < 96 {
+            // control characters incl. U+0000 (byte 0 is token id 0)
+            s.push(gen::pick(&mut ctx.rng, gen::NON_WS_SPACELIKE));
         } else {
             s.push(gen::pick(&mut ctx.rng, gen::LETTERS));
         }
